@@ -132,7 +132,7 @@ impl Prop for C06 {
         ]
     }
     fn cases(&self, tier: Tier) -> u64 {
-        tier.pick(40_000, 1_000_000)
+        tier.pick(300000, 3000000)
     }
     fn choice_len(&self) -> usize {
         6000
